@@ -127,6 +127,14 @@ def directed_families():
     F.append(("msum:sub", ["msum", ["sub", _Gm, 0, 2, 1, 3]]))
     F.append(("msum:mexpr", ["msum", ["mbin", "*", ["mbin", "-", _A, ["raw", 1.0, "float"]], ["arr2", [[1.0, 2.0, -1.0], [0.5, 0.0, 2.0]]]]]))
     F.append(("msum:hadamard", ["msum", ["mbin", "*", _A, ["T", ["sub", _Gm, 0, 3, 0, 2]]]]))
+    # reductions of views of a symmetric matrix that hold one variable at two positions (blocks straddling the diagonal)
+    F.append(("fro:sym-principal-block", ["fro", ["sub", _Gm, 0, 2, 0, 2]]))
+    F.append(("fro:sym-straddling-block", ["fro", ["sub", _Gm, 1, 3, 0, 3]]))
+    F.append(("msum:sym-principal-block", ["msum", ["sub", _Gm, 0, 2, 0, 2]]))
+    F.append(("msum:sym-straddling-block.T", ["msum", ["T", ["sub", _Gm, 0, 3, 1, 3]]]))
+    F.append(("fro:sym.T", ["fro", ["T", _Gm]]))
+    F.append(("qf:triangular", ["qf", ["vbin", "-", _y, ["arr", [0.5, -0.25, 1.0]]], [[2.0, 0.0, 0.0], [1.0, 1.5, 0.0], [-0.75, 0.5, 3.0]]]))
+    F.append(("qf:upper-triangular", ["qf", _y, [[2.0, 1.0, -0.5], [0.0, 1.5, 0.25], [0.0, 0.0, 3.0]]]))
     F.append(("fro", ["fro", _A]))
     F.append(("fro:sym", ["fro", _Gm]))
     F.append(("trace:fn", ["trace", _Gm]))
